@@ -10,7 +10,7 @@ NOTE = ("Trusted: Lean 4.33.0 kernel (axioms propext, Classical.choice, Quot.sou
 CLAIMS = {
  'C01': ("STAGE 3 (C01.roundtrip, Lemmas/RtcRing.lean rtc): for EVERY well-formed adjacency list, rings included (any size, numbering, bond order, number of components, all atom and bond kinds), on which the traversal succeeds (it fails only by needing a 100th open ring number, known finding D17) the complete round trip "
          "walk, write, read, build yields a graph isomorphic to the original along the visit order (Spec.Iso). Proof: simulation between the recursive traversal walkRec and the builder with a state invariant (node edges = processed half-bonds, resolved unless the pool holds the pair open; pool open iff exactly one half-bond processed; builder's open table = pool), "
-         "T-wr for the text leg, builder commutes with the C07 shorthands. NOT a theorem: walk (loop model) = walkRec (compared with the real walk on every run, field EVR); fuel sufficiency of walkRec. "
+         "T-wr for the text leg, builder commutes with the C07 shorthands. Stated about walk itself, the explicit-stack loop mirroring walk.rs (roundtrip_walk): Lemmas/LoopRecL.lean proves loop = recursion in both directions (walk ends ok iff walkRec succeeds, same events) and Lemmas/WalkPanicL.lean that the loop terminates and reaches no internal panic; the only excluded case is D17. walkRec is also compared with the real walk on every run (field EVR). "
          "STAGE 1, for EVERY adjacency list with an atom that passes validation and every accepted string: the traversal's events are written without a panic, the reader ACCEPTS the text and "
          "replays exactly the traversal's events (no atom, bond, charge or ring closure lost, duplicated, retargeted or relabelled between the traversal's event stream and the re-read one — via T-wr), so building from the text equals building "
          "from the traversal's events (text eliminated); whatever is built is a well-formed simple graph (C10) that the traversal accepts (C11). "
@@ -24,7 +24,7 @@ CLAIMS = {
          "Additionally the oracle's independent SMILES interpreter is compared with Builder::build() on every accepted string, incl. bond-list order.",
          "Lean 4 proof that the incremental builder computes a declarative denotation (prefix invariant over all histories) + differential comparison with an independent SMILES interpreter", "4.2"),
  'C03': ("STAGE 3 (stereo_roundtrip): for EVERY well-formed adjacency list, rings included, on which the traversal succeeds (D17 excepted) the complete round trip gives every atom its original kind (up to the C07 shorthands, which commute with flipping) with the @/@@ mark flipped iff the bond it was "
-         "entered through sits at an odd index of its bond list, component roots keep theirs, the re-read bond list is the original with exactly that bond moved to the front, and every bond (ring closures included) keeps its kind as seen from each end, so directional bonds keep their direction. NOT a theorem: walk = walkRec (compared on every run). STAGE 1, for every atom kind, bond list and entry position: the walker hands a child entered through bond index j to the follower with its @/@@ mark flipped iff j + hasH is odd; the builder's "
+         "entered through sits at an odd index of its bond list, component roots keep theirs, the re-read bond list is the original with exactly that bond moved to the front, and every bond (ring closures included) keeps its kind as seen from each end, so directional bonds keep their direction; stated about walk itself (stereo_walk, via loop = recursion, LoopRecL). STAGE 1, for every atom kind, bond list and entry position: the walker hands a child entered through bond index j to the follower with its @/@@ mark flipped iff j + hasH is odd; the builder's "
          "extend flips iff hasH; the composition flips iff j is odd, i.e. iff moving the entry bond to the front is an odd permutation of the neighbour order (hydrogen counted first in the graph, after the preceding atom in text); flipping is an "
          "involution that only exchanges @ and @@ and touches no other field, so every other configuration is carried unchanged; ring closures and extend record directional bonds with mutually reversed kinds. "
          "Additionally: geometric oracle on the real round trip (signed permutation between original and re-read neighbour orders, hydrogen included) and S-graph correspondence over a stereo family (root / chain / ring-closing centre x arrival index 0-3 x +-H x both marks).",
@@ -43,15 +43,16 @@ CLAIMS = {
  'C06': ("Theorems in Purr/Props/C06.lean: every expect/unreachable!/overflow site of the code is an explicit panic outcome of the model, and the theorems show them unreachable: "
          "reading any string never reaches a panic site of the token readers or of read (read_no_panic, by induction over the reader transducer); the string writer never panics on the events "
          "of the reader or of the traversal of any adjacency list (via C08); hydrogen queries cannot overflow (subvalence <= 6, hydrogens <= 9 for any degree). Termination of every model function is "
-         "Lean's own obligation. PARTIAL: Builder/Trace on reader events and the traversal's internal expect(chain head) are not yet theorems — they are covered by the correspondence harness, which runs the real "
-         "code under catch_unwind on every suite and treats a panic where the model has none as a disagreement. Two known findings are listed in known_findings.json (D17: more than 99 open ring closures, D18: stack "
+         "Lean's own obligation. The graph builder and the trace never panic on the events of the reader (and the builder not on those of the traversal). The traversal of ANY adjacency list reaches no internal panic site "
+         "(expect(chain head), lookups) and its loop terminates: walk_only_panics_on_rnum — the only panic left is the exhausted ring-number pool (Lemmas/WalkPanicL.lean: stack/chain order invariant + strictly decreasing potential). "
+         "The correspondence harness additionally runs the real code under catch_unwind on every suite and treats a panic where the model has none as a disagreement. Two known findings are listed in known_findings.json (D17: more than 99 open ring closures, D18: stack "
          "exhaustion on ~10^5 nested parentheses); they are false of the code, hence not provable.",
-         "Lean 4 proof that panic outcomes of the model are unreachable (reader, writer, hydrogen queries) + differential correspondence with catch_unwind on all suites", "4.6"),
+         "Lean 4 proof that panic outcomes of the model are unreachable (reader, writer, builder, trace, traversal loop incl. termination, hydrogen queries) + differential correspondence with catch_unwind on all suites", "4.6"),
  'C08': ("Theorems in Purr/Props/C08.lean: reader_conformant — for EVERY string, valid or not, the emitted history satisfies the follower contract (invariant: protocol path length = sum of the transducer's "
          "chain-length stack, every entry below the top >= 1; proved by induction over the reader transducer); walker_conformant — for EVERY adjacency list, including garbage, the traversal's history up to its error "
          "satisfies the contract (invariant: protocol path length = base + chain length, pop depth = number of chain entries unwound < chain length); conformant_writer_safe — a conformant history never drives the writer "
          "into its documented panics. conformant_builder_safe — nor the builder; walker_joins_paired — on EVERY well-formed adjacency list the traversal's joins come in matched pairs, one on each atom of the bond, with reconcilable kinds: "
-         "the builder driven by the traversal's events ends with no unmatched ring number, no rejected pair, and every bond (ring bonds included) recorded on both atoms (corollary of the round-trip core rtc). The pairing is also checked by the online oracle on the real event stream.",
+         "the builder driven by the traversal's events ends with no unmatched ring number, no rejected pair, and every bond (ring bonds included) recorded on both atoms (corollary of the round-trip core rtc; walker_joins_paired_walk states it about walk itself). The pairing is also checked by the online oracle on the real event stream.",
          "Lean 4 proof (protocol invariants by induction over reader transducer and traversal loop, for all inputs) + differential correspondence of event streams", "4.8"),
  'C07': ("Theorems in Purr/Props/C07.lean: for every value of every feature type and every bracket atom with any combination of its six fields, "
          "the reader applied to text(v) ++ rest returns norm(v) and rest, for every continuation rest whose first character cannot extend the token "
@@ -81,7 +82,7 @@ CLAIMS = {
          "Tie: verdict, events and writer text of walk compared with the model on exhaustive small graphs (garbage included) and single-defect mutations.",
          "Lean 4 proof (validate decides an independent well-formedness predicate; traversal invariant) + differential correspondence on exhaustive small graphs and mutations", "4.11"),
  'C12': ("STAGE 3 (substituent_order): for EVERY well-formed adjacency list, rings included, on which the traversal succeeds (D17 excepted), after the complete round trip walk, write, read, build every atom's re-read bond list is its original list in the original order, renumbered (injectively) by visit "
-         "position, with only the bond it was entered through moved to the front; component roots unchanged; ring-closure digits and branches stay interleaved as listed. NOT a theorem: walk = walkRec (compared on every run). STAGE 1: a newly reached atom's other bonds are scheduled in exactly the order of its bond list and only the bond(s) back to the atom it was entered from are taken out; a component root "
+         "position, with only the bond it was entered through moved to the front; component roots unchanged; ring-closure digits and branches stay interleaved as listed; stated about walk itself (substituent_order_walk, via loop = recursion, LoopRecL). STAGE 1: a newly reached atom's other bonds are scheduled in exactly the order of its bond list and only the bond(s) back to the atom it was entered from are taken out; a component root "
          "schedules its whole list; on re-reading, the builder records the arrival bond first and appends every later bond / ring digit at the end of the head's list, in place. Additionally: order oracle on the real "
          "round trip (each re-read bond list must equal the original with the arrival bond moved to the front, under the depth-first order defined by the property text) and S-graph correspondence over every order of every bond list of all small graphs.",
          "Lean 4 proof of the scheduling-order lemmas of traversal and builder + exact bond-list order oracle on the real round trip", "4.12"),
@@ -89,8 +90,8 @@ CLAIMS = {
          "(open and returned numbers partition 1..counter-1, no duplicates, one entry per unordered pair) holds in every reachable state; an opening hit returns the least number >= 1 not currently open; "
          "a closing hit returns the number its pair was opened with and that number is free at once; an opening number never exceeds the count of open closures plus one, hence "
          "no_early_exhaustion: as long as at most 99 closures are open at the same time every number is in 1..99 and the conversion to Rnum cannot fail, for any total number of rings. "
-         "The traversal takes every ring number from Pool.hit in emission order (model Walk.lean); the lift 'well-formed graph with at most 99 simultaneously open closures => walk does not panic' "
-         "is not yet a theorem (it needs the traversal invariant) and is covered by the S-graph correspondence and the online oracle only — declared partial on that lemma. "
+         "LIFT TO WHOLE TRAVERSALS (walk_never_out_early, Lemmas/PoolWalkL.lean): for EVERY adjacency list, if walk gives up for lack of a ring number then at least 99 ring closures are open in the events it has already handed to the follower "
+         "(invariant: the numbers open in the emitted events are exactly the pool's open numbers); with C06 walk_only_panics_on_rnum and C11 this is: on a well-formed graph writing succeeds unless 99 closures are open at once. "
          "Tie: JoinPool driven directly through the cfg hook and through walk on ring-rich graphs.",
          "Lean 4 proof (invariant by induction over hit sequences; least-free-number and recycling theorems) + differential correspondence of JoinPool and walk", "4.13"),
  'C19': ("Theorems in Purr/Props/C19.lean: depth_le_nesting — for EVERY string the number of simultaneously live read_smiles activations (= length of the reader transducer's stack on the repaired tree) is at most "
@@ -102,12 +103,14 @@ CLAIMS = {
  'C14': ("Determinism: the model is a pure function (stated), and no model result depends on map iteration order — pool lookup is invariant under permutation of the entries given the key-uniqueness invariant (pool_find_perm). The hash seed itself "
          "cannot be exhibited by a theorem: every well-formed input is written in fresh threads (fresh RandomState) by the oracle and must give identical bytes. FIXED POINT (graph_fixed_point, Lemmas/FixL.lean rtc_fix): for EVERY well-formed adjacency list, rings included, on which the traversal succeeds (D17 excepted), "
          "the written text t is accepted, builds g', and traversing and writing g' reproduces t character for character (the complete second cycle read, build, walk, write); proof: lockstep of the traversals of g and of the re-read graph, which is g renumbered by visit position with arrival bonds first, pools equal up to key renumbering, parity compensations cancel. "
-         "Also for every accepted string that builds (string_fixed_point) and at the text level (read-then-write of the events, T-wr). NOT a theorem: walk (loop model) = walkRec (compared on every run). Additionally the rewrite(rewrite x) = rewrite x oracle runs on the real code.",
+         "Also for every accepted string that builds (string_fixed_point) and at the text level (read-then-write of the events, T-wr). Stated about walk itself on both cycles (graph_fixed_point_walk, via loop = recursion, LoopRecL). Additionally the rewrite(rewrite x) = rewrite x oracle runs on the real code.",
          "Lean 4 proof (graph-level fixed point of the full round trip by lockstep simulation; order-independence of keyed lookups) + repeated-run / rewrite-twice oracle", "4.14"),
- 'C15': ("PARTIAL (stage 1). Theorems in Purr/Props/C15.lean for EVERY string: the trace never panics on the reader's calls; the i-th atom range (a,b) satisfies a < b <= |s| and reading an atom at s.drop a succeeds and stops exactly at s.drop b "
-         "(slicing the input there gives the token); the table has exactly one entry per atom event (ids past the last atom map to nothing); the k-th ring-closure token likewise. MISSING: the bond table and the identification with atom ids of the built graph "
-         "(builder/trace lock-step). Until then: the complete trace dump of the real Trace (all atom ranges, every bond key in both directions, ring digits) is compared with the model on every string, and an oracle recomputes spans and bond cursors from an independent tokeniser.",
-         "Lean 4 proof that recorded ranges are exactly token boundaries (located-event invariant over the reader) + full trace-dump correspondence", "4.15"),
+ 'C15': ("Theorems in Purr/Props/C15.lean for EVERY string: the trace never panics on the reader's calls; the i-th atom range (a,b) satisfies a < b <= |s| and reading an atom at s.drop a succeeds and stops exactly at s.drop b "
+         "(slicing the input there gives the token); the table has exactly one entry per atom event (ids past the last atom map to nothing); the k-th ring-closure token likewise; bond_cursor_is_bond_token: every cursor of the bond table is the position of a bond token — "
+         "reading a bond there yields the written bond symbol, or nothing when elided, and is followed by the target atom or ring-closure token (so an elided bond maps to the first character of its target token and each end of a ring closure reports its own digit); "
+         "trace_matches_built_graph: for every accepted string that builds, the trace has as many atoms as the built graph and an entry for (x,y) iff atom x has a bond to atom y (builder/trace lock-step over the same events, Lemmas/TraceBondL.lean). "
+         "Additionally the complete trace dump of the real Trace (all atom ranges, every bond key in both directions, ring digits) is compared with the model on every string, and an oracle recomputes spans and bond cursors from an independent tokeniser.",
+         "Lean 4 proof that recorded ranges and bond cursors are exactly token positions (located-event invariant over the reader) and that the trace's keys are the built graph's bonds (lock-step invariant) + full trace-dump correspondence", "4.15"),
  'C16': ("Theorem debracket_sound (Purr/Props/C16.lean): for every atom kind and every bond-order sum (an unbounded Nat), whenever debracket returns, the result has the same "
          "element or wildcard, the same aromatic flag and the same hydrogen count at that sum; kinds with isotope/configuration/charge/map and unbracketed kinds are "
          "returned unchanged; debracket returns whenever the sum plus hydrogen count fits a byte. Tie: symbol x hcount x sum x field-presence compared with the code.",
